@@ -364,10 +364,12 @@ func init() {
 				us := specUnits("H_envmono", append(core, append(everyNth(specs, 6, c.seed), everyNth(cur, 40, c.seed)...)...), []profile{{"tmpl K<=2 Lp<=1, env subsets of {VA,VE}", map[string]interface{}{"profile": "tmpl", "K": 2, "Lp": 1, "envmask": 9}}}, 1)
 				us = append(us, specUnits("H_envmono", []string{"-e X", "-a -e", "[OPTIONS] X [OPTIONS]", "-o [-a]"}, []profile{{"raw K<=2 L<=2, declared defaults equal to the environment values", map[string]interface{}{"profile": "raw", "K": 2, "L": 2, "envmask": 15, "defEqEnv": 1}}}, 1)...)
 				us = append(us, specUnits("H_envmono", []string{"[OPTIONS] X [OPTIONS]", "[-ae] X [-ae]"}, []profile{{"core template K<=3 Lp<=1, env subsets of {VA,VE}", map[string]interface{}{"profile": "tmplmini", "K": 3, "Lp": 1, "envmask": 9}}}, 1)...)
-				return append(us, specUnits("H_envmono", []string{"[OPTIONS]", "[OPTIONS] X", "-ae"}, []profile{{"tmpl K<=2 Lp<=1, all 16 env subsets", map[string]interface{}{"profile": "tmpl", "K": 2, "Lp": 1, "envmask": 15}}}, 1)...)
+				us = append(us, specUnits("H_envmono", []string{"[OPTIONS]", "[OPTIONS] X", "-ae"}, []profile{{"tmpl K<=2 Lp<=1, all 16 env subsets", map[string]interface{}{"profile": "tmpl", "K": 2, "Lp": 1, "envmask": 15}}}, 1)...)
+				return append(us, requiredEnvUnits(1, 1)...)
 			}
 			specs = append(specs, cur...)
-			return specUnits("H_envmono", specs, []profile{{"tmpl K<=2 Lp<=1", map[string]interface{}{"profile": "tmpl", "K": 2, "Lp": 1}}, {"raw K<=2 L<=3", map[string]interface{}{"profile": "raw", "K": 2, "L": 3}}}, 1)
+			us := specUnits("H_envmono", specs, []profile{{"tmpl K<=2 Lp<=1", map[string]interface{}{"profile": "tmpl", "K": 2, "Lp": 1}}, {"raw K<=2 L<=3", map[string]interface{}{"profile": "raw", "K": 2, "L": 3}}}, 1)
+			return append(us, requiredEnvUnits(3, 2)...)
 		},
 		Bounds: func(c *checkCtx) map[string]interface{} {
 			return map[string]interface{}{"env": map[bool]string{true: "every subset of {VA,VE} (all 16 subsets of {VA,VB,VO,VE} on the three option-group specs)", false: "every subset of {VA,VB,VO,VE}"}[c.quick()] + " set to a fixed valid value (symbolic bits)", "argv": "template K<=2 items over 20 shapes" + map[bool]string{true: "", false: "; raw K<=2 L<=3"}[c.quick()],
@@ -739,4 +741,21 @@ func hasOption(s string) bool {
 		}
 	}
 	return false
+}
+
+// requiredEnvUnits: a required, repeatable option of each built-in type (both
+// declaration flavours) with up to two environment variables of symbolic content.
+func requiredEnvUnits(envLen, cliLen int) []*interp.Unit {
+	var us []*interp.Unit
+	for ptr := 0; ptr <= 1; ptr++ {
+		for t := 0; t < 7; t++ {
+			tn := []string{"bool", "string", "int", "float64", "strings", "ints", "floats64"}[t]
+			api := map[int]string{0: "struct API", 1: "Ptr API"}[ptr]
+			u := unit(groups["cli"], "H_prec", fmt.Sprintf("H_prec[required %s option, %s, env<=%dB x2 cli<=%dB]", tn, api, envLen, cliLen),
+				map[string]interface{}{"type": t, "opt": 1, "check": "C12", "envLen": envLen, "cliLen": cliLen, "maxEnv": 2, "withArg": 0, "ptr": ptr, "sibling": 0})
+			u.Samples = 2
+			us = append(us, u)
+		}
+	}
+	return us
 }
